@@ -255,11 +255,75 @@ def r_valid_matches_record(prog, rep):
     return r
 
 
+def r_sig_fold_all(prog, rep):
+    """shared by C08 and C09: what every getSignature must do regardless of which members it folds."""
+    r = rep.rule("R-SIG-FOLD-ALL",
+                 "a signature covers the whole of what it folds: a loop that folds a list folds every element (no element is skipped under a condition, "
+                 "the loop is not left early), and an override in a class derived from ExternalCommand includes the inherited signature — command name, "
+                 "declared inputs and outputs, flags — on every path that computes a signature (a cached value aside)", floor=8)
+    sigs = [f for f in prog.functions.values() if f.name.split("::")[-1] == "getSignature" and not f.is_lambda and
+            ("CommandSignature" in (f.ret_type() or "")) and ("buildsystem" in f.name or "CAPI" in f.name or "Command" in (f.cls or ""))]
+    n_loops = 0
+    for f in sorted(sigs, key=lambda g: g.name):
+        cls = (f.cls or "").split("::")[-1]
+        for lp in f.nodes:
+            if lp.get("k") not in ("forrange", "for", "while"):
+                continue
+            folds = [c for c in lp.child("body").walk() if c.get("k") == "call" and (c.get("fn") or "").endswith("CommandSignature::combine")]
+            if not folds:
+                continue
+            n_loops += 1
+            what = expr_str(lp.child("range")) if lp.get("k") == "forrange" else expr_str(lp.child("c"))
+            site = "%s::getSignature|fold %s" % (cls, what[:30])
+            skips = [x for x in lp.child("body").walk() if x.get("k") in ("continue", "break", "return", "goto")]
+            cond = []
+            for c in folds:
+                for a in f.ancestors(c):
+                    if a is lp:
+                        break
+                    if a.get("k") in ("if", "cond", "switch"):
+                        cond.append(a)
+            r.check(not skips and not cond, site, "", "an element of %s can be left out of the signature (%s): two definitions that differ only in such an element "
+                    "have the same signature" % (what[:40], "the loop skips or stops" if skips else "the fold is conditional"), f, (skips or cond or [lp])[0])
+        # the inherited part
+        rec = prog.records.get(f.cls or "")
+        bases = set()
+        work = list(rec["bases"]) if rec else []
+        while work:
+            b = work.pop()
+            if b in bases:
+                continue
+            bases.add(b)
+            rb = prog.records.get(b)
+            work += list(rb["bases"]) if rb else []
+        if not any(b.endswith("buildsystem::ExternalCommand") for b in bases):
+            continue
+        base = [c for c in f.calls() if (c.get("fn") or "").endswith("ExternalCommand::getSignature") and c.get("qualified")]
+        site = "%s::getSignature|inherited-part" % cls
+        if not base:
+            r.violation(site, "%s::getSignature never includes ExternalCommand::getSignature(): name, declared inputs/outputs and flags are not covered" % cls, f)
+            continue
+        bp = set(cfg.pos_of(f, c) for c in base)
+        # a cached signature may be returned without recomputation: fix the cache test to `empty`
+        env = {}
+        for b_ in f.blocks.values():
+            c_ = b_.effective_cond()
+            if c_ is not None and "isNull()" in expr_str(c_):
+                for a_, p_ in cfg.cond_atoms(c_, True) + cfg.cond_atoms(c_, False):
+                    if a_.endswith(".isNull()"):
+                        env[a_] = True
+        w = cfg.reach_under(f, env, lambda p, e: e == "EXIT", lambda p, e: p in bp)
+        r.check(w is None, site, "", "%s::getSignature can compute a signature without the inherited part (command name, declared inputs and outputs, flags)" % cls, f, base[0])
+    if n_loops < 5:
+        raise AnalysisBroken("R-SIG-FOLD-ALL: only %d folding loops found in getSignature functions" % n_loops)
+
+
 def run(ctx):
     prog, rep = ctx.prog, ctx.report
     from rules import C08
     C08.r_output_compare(prog, rep, with_inputs=False)
     r_valid_matches_record(prog, rep)
+    r_sig_fold_all(prog, rep)
     from rules import engine as E
     E.r_prior_value_guard(prog, rep, with_consumer=True)
 
@@ -430,4 +494,12 @@ VARIANTS = [
          expect=("R-PRIOR-VALUE-GUARD", "providePriorValue|only-successful")),
     dict(name="benign-shortcut-guard-nested", file="lib/BuildSystem/ExternalCommand.cpp", old="  if (canUpdateIfNewer && hasPriorResult) {\n    BuildValue result = computeCommandResult(system, ti);\n    if (canUpdateIfNewerWithResult(result)) {\n      resultFn(std::move(result));\n      return;\n    }\n  }",
          new="  if (hasPriorResult) {\n    if (canUpdateIfNewer) {\n      BuildValue result = computeCommandResult(system, ti);\n      if (canUpdateIfNewerWithResult(result)) {\n        resultFn(std::move(result));\n        return;\n      }\n    }\n  }", expect=None),
+    dict(name="virtual-inputs-skipped-in-signature", file="lib/BuildSystem/ExternalCommand.cpp", old="  for (const auto* input: inputs) {\n    code = code.combine(input->getName());", new="  for (const auto* input: inputs) {\n    if (input->isVirtual())\n      continue;\n    code = code.combine(input->getName());",
+         expect=("R-SIG-FOLD-ALL", "fold inputs")),
+    dict(name="only-first-argument-folded", file="lib/BuildSystem/ShellCommand.cpp", old="    for (const auto& arg: args) {\n      code = code.combine(arg);\n    }", new="    for (const auto& arg: args) {\n      code = code.combine(arg);\n      break;\n    }",
+         expect=("R-SIG-FOLD-ALL", "fold args")),
+    dict(name="explicit-signature-replaces-inherited-part", file="lib/BuildSystem/ShellCommand.cpp", old="  auto code = ExternalCommand::getSignature();\n  if (!signatureData.empty()) {\n    code = code.combine(signatureData);\n  } else {",
+         new="  CommandSignature code;\n  if (!signatureData.empty()) {\n    code = CommandSignature(signatureData);\n  } else {\n    code = ExternalCommand::getSignature();", expect=("R-SIG-FOLD-ALL", "inherited-part")),
+    dict(name="benign-inherited-part-on-both-arms", file="lib/BuildSystem/ShellCommand.cpp", old="  auto code = ExternalCommand::getSignature();\n  if (!signatureData.empty()) {\n    code = code.combine(signatureData);\n  } else {",
+         new="  CommandSignature code;\n  if (!signatureData.empty()) {\n    code = ExternalCommand::getSignature().combine(signatureData);\n  } else {\n    code = ExternalCommand::getSignature();", expect=None),
 ]
